@@ -287,13 +287,27 @@ theorem repl_hex (d : Nat) (u : Cps) (hd : d ≠ 92) (hh : isHex d = true) :
     | succ k =>
       rw [Nat.add_right_comm, List.take_succ_cons]
       simp [hd]
+  have hdnl : (d == 10 || d == 13 || d == 12) = false := by
+    have : isNl d = false := by
+      cases h : isNl d with
+      | false => rfl
+      | true =>
+        have hd' : d = 10 ∨ d = 13 ∨ d = 12 := by simpa [isNl, or_assoc] using h
+        rcases hd' with rfl | rfl | rfl <;> revert hh <;> decide
+    simpa [isNl] using this
+  have hshape : ∃ r, (d :: u).take (n + w) = d :: r := by
+    cases n with
+    | zero => omega
+    | succ k => exact ⟨_, by rw [Nat.add_right_comm, List.take_succ_cons]⟩
+  obtain ⟨r, hr⟩ := hshape
   unfold repl
-  simp only [hnot, Bool.false_eq_true, if_false, List.drop_one, List.tail_cons]
-  rw [hsplit, pyIntHex_append _ _ hA hne hB]
+  rw [if_neg (by simpa using hnot), hr]
+  simp only [hdnl, Bool.false_eq_true, if_false, List.drop_one, List.tail_cons]
+  rw [← hr, hsplit, pyIntHex_append _ _ hA hne hB]
   simp only [decodeHex]
-  split
-  · rename_i h; simp at h; simp [h]
-  · rename_i h; simp at h; simp only [h, if_false]; split <;> rfl
+  by_cases h5 : hexNum (List.take n (d :: u)) = 92
+  · simp [h5]
+  · by_cases hm : hexNum (List.take n (d :: u)) ≤ 1114111 <;> simp [h5, hm]
 
 theorem subGo_skip (r : Re) (f : Cps → Option Cps) : ∀ (s : Cps) (k : Nat),
     subGo r f s k = subGo r f (s.drop k) 0 := by
@@ -343,65 +357,118 @@ theorem subU_unescapeF : ∀ (fuel : Nat) (s : Cps), s.length ≤ fuel → subGo
 
 theorem subU_eq_unescape (s : Cps) : subU s = some (unescape s) := subU_unescapeF s.length s (Nat.le_refl _)
 
-theorem first_cleanstring (s : Cps) : cleanstringRe.first s = contLen s := by
-  unfold cleanstringRe
-  rcases s with _ | ⟨c, _ | ⟨d, _ | ⟨e, v⟩⟩⟩
-  · simp [Re.first, Re.ms, contLen]
-  · by_cases hc : c = 92 <;> simp [Re.first, Re.ms, contLen, inCls_single, hc]
-  · simp only [Re.first, Re.ms, contLen, Re.inCls, isNl]
+theorem first_stringsub (s : Cps) : stringsubRe.first s = strLen s := by
+  unfold stringsubRe
+  rcases s with _ | ⟨c, t⟩
+  · simp [first_seq_cls_nil, strLen]
+  · rw [first_seq_cls_cons]
     by_cases hc : c = 92
     · subst hc
-      by_cases h13 : d = 13
-      · subst h13; simp
-      · by_cases h10 : d = 10 <;> by_cases h12 : d = 12 <;> simp_all [le_and_le_iff]
-    · simp [hc]; intro x h1 h2; omega
-  · simp only [Re.first, Re.ms, contLen, Re.inCls, isNl]
-    by_cases hc : c = 92
-    · subst hc
-      by_cases h13 : d = 13
-      · subst h13
-        by_cases he : e = 10
-        · subst he; simp
-        · simp [he, le_and_le_iff]
-      · by_cases h10 : d = 10 <;> by_cases h12 : d = 12 <;> simp_all [le_and_le_iff]
-    · simp [hc]; intro x h1 h2; omega
+      have h92 : Re.inCls false [(92, 92)] 92 = true := by decide
+      simp only [h92, if_true, first_alt]
+      rcases t with _ | ⟨d, u⟩
+      · simp [first_cls_nil, strLen, first_seq_none, Re.ms, Re.repMs, Re.first]
+      · rw [first_cls_cons]
+        by_cases hd : d = 92
+        · subst hd; simp [strLen, inCls_single]
+        · have hn : Re.inCls false [(92, 92)] d = false := by simp [inCls_single, hd]
+          simp only [hn, Bool.false_eq_true, if_false, Option.none_or]
+          by_cases hcrlf : d = 13 ∧ u.head? = some 10
+          · obtain ⟨rfl, hu⟩ := hcrlf
+            rcases u with _ | ⟨e, v⟩
+            · simp at hu
+            · simp only [List.head?_cons, Option.some.injEq] at hu; subst hu
+              simp [strLen, Re.first, Re.ms, Re.inCls]
+          · by_cases hnl : isNl d = true
+            · have hd' : d = 10 ∨ d = 13 ∨ d = 12 := by simpa [isNl, or_assoc] using hnl
+              have hcls : Re.inCls false [(10, 10), (13, 13), (12, 12)] d = true := by
+                rcases hd' with rfl | rfl | rfl <;> decide
+              have hseq : (Re.seq (Re.cls false [(13, 13)]) (Re.cls false [(10, 10)])).first (d :: u) = none := by
+                rw [first_seq_cls_cons]
+                by_cases h13 : d = 13
+                · subst h13
+                  have hu : ¬ u.head? = some 10 := fun h => hcrlf ⟨rfl, h⟩
+                  rcases u with _ | ⟨e, v⟩
+                  · simp [first_cls_nil]
+                  · have he : e ≠ 10 := by simpa using hu
+                    simp [first_cls_cons, inCls_single, he]
+                · simp [inCls_single, h13]
+              simp only [first_alt, hseq, Option.none_or, first_cls_cons, hcls, if_true, Option.some_or]
+              simp [strLen, hd, hcrlf, hnl]
+            · have hnl' : isNl d = false := by simpa using hnl
+              have hcls : Re.inCls false [(10, 10), (13, 13), (12, 12)] d = false := by
+                simp only [isNl, Bool.or_eq_false_iff, beq_eq_false_iff_ne] at hnl'
+                simp [Re.inCls]; omega
+              have hd13 : d ≠ 13 := by intro e; subst e; exact hnl (by decide)
+              have hseq : (Re.seq (Re.cls false [(13, 13)]) (Re.cls false [(10, 10)])).first (d :: u) = none := by
+                rw [first_seq_cls_cons]; simp [inCls_single, hd13]
+              simp only [first_alt, hseq, Option.none_or, first_cls_cons, hcls, Bool.false_eq_true, if_false]
+              have hrun := first_rep_cls false [(48, 57), (97, 102), (65, 70)] 1 6 (d :: u)
+              rw [runLen_congr _ isHex inCls_hex] at hrun
+              by_cases hz : runLen isHex (d :: u) 6 = 0
+              · have h1 : ¬ 1 ≤ runLen isHex (d :: u) 6 := by omega
+                simp only [h1, if_false] at hrun
+                have hnil : (Re.rep (Re.cls false [(48, 57), (97, 102), (65, 70)]) 1 6 true).ms (d :: u) = [] := by
+                  simpa [Re.first] using hrun
+                simp [first_seq_none hnil, strLen, hd, hcrlf, hnl, hz]
+              · have h1 : 1 ≤ runLen isHex (d :: u) 6 := by omega
+                simp only [h1, if_true] at hrun
+                rw [first_seq_some hrun (first_optWs _)]
+                simp [strLen, hd, hcrlf, hnl, hz]; omega
+    · have hn : Re.inCls false [(92, 92)] c = false := by simp [inCls_single, hc]
+      simp [hn, strLen, hc]
 
-theorem contLen_pos (s : Cps) (l : Nat) (h : contLen s = some l) : 2 ≤ l := by
-  unfold contLen at h
-  split at h
-  · simp at h
-  · split at h
-    · simp at h
-    · split at h
-      · simp at h
-      · split at h
-        · simp at h; omega
-        · split at h <;> simp at h; omega
-
-theorem subClean_stripContF : ∀ (fuel : Nat) (s : Cps), s.length ≤ fuel →
-    subGo cleanstringRe (fun _ => some []) s 0 = some (stripContF fuel s) := by
+theorem subS_stringValueF : ∀ (fuel : Nat) (s : Cps), s.length ≤ fuel →
+    subGo stringsubRe repl s 0 = some (stringValueF fuel s) := by
   intro fuel
   induction fuel with
-  | zero => intro s h; cases s <;> simp_all [subGo, stripContF]
+  | zero => intro s h; cases s <;> simp_all [subGo, stringValueF]
   | succ f ih =>
     intro s h
     rcases s with _ | ⟨c, t⟩
-    · simp [subGo, stripContF]
+    · simp [subGo, stringValueF]
     · simp only [List.length_cons] at h
       have ht : t.length ≤ f := by omega
-      simp only [subGo, first_cleanstring, stripContF]
-      cases hl : contLen (c :: t) with
-      | none => simp [ih t ht]
-      | some l =>
-        have := contLen_pos _ _ hl
-        obtain ⟨k, rfl⟩ : ∃ k, l = k + 1 := ⟨l - 1, by omega⟩
-        simp only [List.drop_succ_cons]
-        rw [subGo_skip]
-        have hl' : (List.drop k t).length ≤ f := by simp only [List.length_drop]; omega
-        simp [ih _ hl']
+      simp only [subGo, first_stringsub, stringValueF]
+      by_cases hc : c = 92
+      · subst hc
+        rcases t with _ | ⟨d, u⟩
+        · simp [strLen, subGo]
+        · have hu : u.length ≤ f := by simp at ht; omega
+          by_cases hd : d = 92
+          · subst hd
+            simp [strLen, subGo, ih u hu, repl]
+          · by_cases hcrlf : d = 13 ∧ u.head? = some 10
+            · obtain ⟨rfl, hh⟩ := hcrlf
+              rcases u with _ | ⟨e, v⟩
+              · simp at hh
+              · simp only [List.head?_cons, Option.some.injEq] at hh; subst hh
+                have hv : v.length ≤ f := by simp at hu; omega
+                simp [strLen, subGo, repl, ih v hv]
+            · by_cases hnl : isNl d = true
+              · have hd' : d = 10 ∨ d = 13 ∨ d = 12 := by simpa [isNl, or_assoc] using hnl
+                have hrepl : repl [92, d] = some [] := by
+                  rcases hd' with rfl | rfl | rfl <;> decide
+                simp only [strLen, hd, hcrlf, hnl, ne_eq, not_true_eq_false, if_false, if_true, List.take_succ_cons,
+                  List.take_zero, hrepl, subGo, ih u hu]
+                simp
+              · by_cases hh : isHex d = true
+                · have hz : runLen isHex (d :: u) 6 ≠ 0 := by simp [runLen, hh]
+                  simp only [strLen, hd, hcrlf, hnl, hz, hh, ne_eq, not_true_eq_false, if_false, if_true,
+                    Bool.false_eq_true]
+                  have e : 1 + runLen isHex (d :: u) 6 + wsLen (List.drop (runLen isHex (d :: u) 6) (d :: u)) =
+                      (runLen isHex (d :: u) 6 + wsLen (List.drop (runLen isHex (d :: u) 6) (d :: u))) + 1 := by omega
+                  rw [e]
+                  simp only [List.take_succ_cons]
+                  rw [repl_hex d u hd hh, subGo_skip]
+                  have hl : (List.drop (runLen isHex (d :: u) 6 + wsLen (List.drop (runLen isHex (d :: u) 6) (d :: u))) (d :: u)).length ≤ f := by
+                    simp only [List.length_drop]; omega
+                  rw [ih _ hl]
+                · have hz : runLen isHex (d :: u) 6 = 0 := by simp [runLen, hh]
+                  simp [strLen, hd, hcrlf, hnl, hz, hh, ih _ ht]
+      · simp [strLen, hc, ih t ht]
 
-theorem subClean_eq_stripCont (s : Cps) : subClean s = some (stripCont s) :=
-  subClean_stripContF s.length s (Nat.le_refl _)
+theorem subS_eq_stringValue (s : Cps) : subS s = some (stringValue s) := subS_stringValueF s.length s (Nat.le_refl _)
 
 theorem subGo_isSome (r : Re) (f : Cps → Option Cps) (hr : r.nonNullable = true) (hf : ∀ m, (f m).isSome) :
     ∀ (s : Cps) (k : Nat), (subGo r f s k).isSome := by
@@ -650,11 +717,11 @@ theorem valueOf_isSome (s : Cps) (name : String) (found : Cps) (hne : found ≠ 
     ∃ x, valueOf s name found = some x ∧ x.found ≠ [] := by
   unfold valueOf
   split
-  · simp only [subU_eq_unescape]
-    split
-    · simp only [subClean_eq_stripCont]
+  · split
+    · simp only [subS_eq_stringValue]
       exact ⟨_, rfl, hne⟩
-    · exact ⟨_, rfl, hne⟩
+    · simp only [subU_eq_unescape]
+      exact ⟨_, rfl, hne⟩
   · split
     · obtain ⟨n, hn⟩ := Option.isSome_iff_exists.mp (normalizeU_isSome found)
       simp only [hn]
@@ -814,11 +881,11 @@ theorem valueOf_span (s : Cps) (name : String) (found : Cps) (x : NVF)
   unfold valueOf at h
   split at h
   · split at h
-    · simp at h
     · split at h
-      · split at h
-        · simp at h
-        · simp only [Option.some.injEq] at h; subst h; exact h0
+      · simp at h
+      · simp only [Option.some.injEq] at h; subst h; exact h0
+    · split at h
+      · simp at h
       · simp only [Option.some.injEq] at h; subst h; exact h0
   · split at h
     · split at h
@@ -938,13 +1005,12 @@ theorem valueOf_value (s : Cps) (name : String) (found : Cps) (x : NVF) (h : val
   unfold valueOf at h
   split at h
   · rename_i hu
-    simp only [subU_eq_unescape] at h
     split at h
     · rename_i hcl
-      simp only [subClean_eq_stripCont, Option.some.injEq] at h; subst h
+      simp only [subS_eq_stringValue, Option.some.injEq] at h; subst h
       exact ⟨by unfold tokenValue; rw [if_pos hu, if_pos hcl], Or.inl rfl⟩
     · rename_i hcl
-      simp only [Option.some.injEq] at h; subst h
+      simp only [subU_eq_unescape, Option.some.injEq] at h; subst h
       exact ⟨by unfold tokenValue; rw [if_pos hu, if_neg hcl], Or.inl rfl⟩
   · rename_i hu
     split at h
@@ -972,7 +1038,7 @@ def itemsOK (full : Bool) : List Item → Prop
   | [] => True
   | it :: rest =>
     it.typ ∈ knownTypes ∧
-    (it.value = tokenValue it.typ it.found ∨ (full = true ∧ it.typ = "COMMENT" ∧ it.value = it.found)) ∧
+    it.value = tokenValue it.typ it.found ∧
     (it.found = it.span ∨ (full = true ∧ rest = [] ∧ ∃ k, it.found = it.span ++ k)) ∧
     itemsOK full rest
 
@@ -1010,12 +1076,13 @@ theorem loop_itemsOK (full doC : Bool) (fuel : Nat) (s : Cps) (line col : Nat) :
   case case3 c t line col hfast ih =>
     simp only [Res.cons, itemsOK]
     have hch : unescTypes.contains "CHAR" = false := by decide
-    exact ⟨by decide, Or.inl (tokenValue_plain _ _ hch).symm, by simp, ih⟩
+    exact ⟨by decide, (tokenValue_plain _ _ hch).symm, by simp, ih⟩
   case case4 => trivial
   case case5 c t line col _ v hscan =>
     obtain ⟨hfull, rfl⟩ := scan_comment full doC _ _ _ hscan
     simp only [itemsOK]
-    refine ⟨by decide, Or.inr ⟨hfull, ?_, ?_⟩, Or.inr ⟨hfull, ?_, commentClose, ?_⟩, trivial⟩ <;> simp
+    have hcm : unescTypes.contains "COMMENT" = false := by decide
+    refine ⟨by decide, (tokenValue_plain _ _ hcm).symm, Or.inr ⟨hfull, ?_, commentClose, ?_⟩, trivial⟩ <;> simp
   case case6 => trivial
   case case7 => trivial
   case case8 => trivial
@@ -1024,7 +1091,7 @@ theorem loop_itemsOK (full doC : Bool) (fuel : Nat) (s : Cps) (line col : Nat) :
     obtain ⟨r, hr, _⟩ := scan_hit full doC _ _ name l hscan
     have hname := prod_name_known name r hr
     obtain ⟨hval, hxn⟩ := valueOf_value _ _ _ _ hv
-    refine ⟨?_, Or.inl hval, ?_, ih⟩
+    refine ⟨?_, hval, ?_, ih⟩
     · rcases hxn with h | h | h | h
       · rw [h]
         rcases complete_name _ _ _ _ _ hc with h2 | ⟨_, h2 | h2⟩
@@ -1079,7 +1146,7 @@ theorem posOK_append : ∀ (a b : List Item) (pre : Cps), posOK pre a → posOK 
 
 theorem itemsOK_mem (full : Bool) : ∀ (items : List Item), itemsOK full items → ∀ it ∈ items,
     it.typ ∈ knownTypes ∧
-    (it.value = tokenValue it.typ it.found ∨ (full = true ∧ it.typ = "COMMENT" ∧ it.value = it.found)) := by
+    it.value = tokenValue it.typ it.found := by
   intro items
   induction items with
   | nil => intro _ it h; simp at h
@@ -1158,7 +1225,7 @@ theorem body_pos (text : Cps) (full doC : Bool) : posOK [] (body text full doC) 
 
 theorem body_itemsOK_mem (text : Cps) (full doC : Bool) : ∀ it ∈ body text full doC,
     it.typ ∈ knownTypes ∧
-    (it.value = tokenValue it.typ it.found ∨ (full = true ∧ it.typ = "COMMENT" ∧ it.value = it.found)) := by
+    it.value = tokenValue it.typ it.found := by
   intro it hit
   unfold body at hit
   rcases List.mem_append.mp hit with h | h
@@ -1166,7 +1233,7 @@ theorem body_itemsOK_mem (text : Cps) (full doC : Bool) : ∀ it ∈ body text f
     split at h
     · simp only [List.mem_singleton] at h; subst h
       have hcs : unescTypes.contains charsetSym = false := by decide
-      exact ⟨by decide, Or.inl (tokenValue_plain _ _ hcs).symm⟩
+      exact ⟨by decide, (tokenValue_plain _ _ hcs).symm⟩
     · simp at h
   · exact itemsOK_mem full _ (loop_itemsOK full doC _ _ _ _) it h
 
@@ -1189,12 +1256,12 @@ theorem unescapeF_fuel (f : Nat) (s : Cps) (h : s.length ≤ f) : unescapeF f s 
   rw [h1] at h2
   exact Option.some.inj h2
 
-theorem stripContF_fuel (f : Nat) (s : Cps) (h : s.length ≤ f) : stripContF f s = stripCont s := by
-  have h1 := subClean_stripContF f s h
-  have h2 := subClean_stripContF s.length s (Nat.le_refl _)
+/-! ## one-pass value of a string token (the full-strength reading of T5.4 for STRING / INVALID) -/
+
+theorem stringValueF_fuel (f : Nat) (s : Cps) (h : s.length ≤ f) : stringValueF f s = stringValue s := by
+  have h1 := subS_stringValueF f s h
+  have h2 := subS_stringValueF s.length s (Nat.le_refl _)
   rw [h1] at h2
   exact Option.some.inj h2
-
-/-! ## one-pass value of a string token (the full-strength reading of T5.4 for STRING / INVALID) -/
 
 end CssVerif.Tok
